@@ -4,19 +4,25 @@ From MpV Require Export Model.BacklogSpec.
 From Coq Require Import Bool.
 Open Scope bool_scope.
 
-(* capacity, events (0 = Acc | 1 = Rel | n + 2 = Len n), observed peak, 1 = the harness saw the server idle at the end *)
-Definition case := (nat * list nat * nat * nat)%type.
+(* capacity, events (0 = Acc | 1 = Rel | n + 2 = Len n), observed peak, 1 = the harness saw the server idle at the end,
+   gate tokens of an AsyncServer run ([] otherwise; replayed in Model/AGate.v by Driver/DriverGate.v) *)
+From MpV Require Driver.DriverGate.
+Definition case := (nat * list nat * nat * nat * list nat)%type.
 
 Definition ev_of (n : nat) : ev := match n with 0 => Acc | 1 => Rel | S (S m) => Len m end.
 
 Definition check_case (c : case) : nat :=
-  let '(cap, evs, pk, idle) := c in
+  let '(cap, evs, pk, idle, gtoks) := c in
   match accept cap init 0 (map ev_of evs) with
   | inr (_, Overflow) => 1
   | inr (_, Impossible) => 2
   | inr (_, Inconsistent) => 3
   | inl s => if negb (Nat.eqb (peak s) pk) then 4
-             else if Nat.eqb idle 1 && negb (Nat.eqb (backlog s) 0) then 5 else 0
+             else if Nat.eqb idle 1 && negb (Nat.eqb (backlog s) 0) then 5
+             else match gtoks with
+                  | [] => 0
+                  | _ => match DriverGate.check_case (cap, gtoks, idle) with 0 => 0 | k => 20 + k end
+                  end
   end.
 
 Fixpoint bad_from (i : nat) (cs : list case) : list (nat * nat) :=
